@@ -122,6 +122,9 @@ def _glob_of(draw, comp):
         g = g.replace("**", "*")
     if not g:
         g = "*"
+    if g in (".", ".."):
+        # a pattern component "." is path canonicalisation ('./'), not a name
+        g = "?" * len(g)
     return g
 
 
@@ -222,7 +225,7 @@ def _derived(draw, comps, allow_re=True):
         p = draw(_random_glob())
     else:
         return "RE:" + _regex_of(draw, "/".join(comps))
-    if draw(st.integers(0, 9)) == 0:
+    if draw(st.integers(0, 9)) == 0 and not p.startswith("RE:"):
         p = p + "/"
     return p
 
@@ -231,6 +234,8 @@ def _join_atoms(xs):
     g = "".join(xs)
     while "**" in g:
         g = g.replace("**", "*")
+    if g in (".", ".."):
+        g = "?" * len(g)
     return g
 
 
@@ -265,6 +270,10 @@ _PAD_CHOICES = [0, 0, 0, 0, 1, 50, 98, 99, 100, 101, 150, 198, 199, 250]
 def gen_case(draw, exceptions=False, names=1):
     ncomp = draw(st.sampled_from([1, 1, 2, 2, 2, 3, 3]))
     comps = draw(st.lists(_comp(), min_size=ncomp, max_size=ncomp))
+    if draw(st.integers(0, 2)) == 0:
+        # a basename with an extension, so that *.ext patterns can match
+        comps[-1] = _sane(comps[-1][:2] + "." + draw(st.sampled_from(
+            ["a", "b", "ab", "a+", "c.a", "bak"])))
     n = draw(st.sampled_from([0, 1, 1, 2, 2, 3, 3, 4, 5, 6, 8]))
     pats = []
     for _ in range(n):
@@ -540,10 +549,12 @@ def run_flags(case, env):
         return violation("C48/re-inline-flag-pattern-rejected-as-invalid",
                          {"case": case, "error": str(e)[:300]},
                          label="re-inline-flags")
-    if not want and got is not None and got != case["pat"]:
-        return trivial()
-    check((got == case["pat"]) == want, "C48/re-inline-flag-pattern-verdict",
-          {"case": case, "got": got, "reference": want})
+    allowed = {o for o in case["others"] if R.ref_match(o, f)}
+    if want:
+        allowed.add(case["pat"])
+    check((got in allowed) if allowed else got is None,
+          "C48/re-inline-flag-pattern-verdict",
+          {"case": case, "got": got, "reference": sorted(allowed)})
     return ok("re-inline-flags") if want else trivial()
 
 
@@ -582,17 +593,62 @@ def run_paren(case, env):
     return ok("re-literal-paren") if (want and literal) else trivial()
 
 
+@st.composite
+def gen_bang_re(draw):
+    comps = draw(st.lists(st.text(alphabet=st.sampled_from("ab.+$"),
+                                  min_size=1, max_size=3).map(_sane),
+                          min_size=1, max_size=2))
+    f = "/".join(comps)
+    if not any(c in f for c in ".+$"):
+        f += ".a"
+    body = "".join(_re_lit(c, False) for c in f)
+    if draw(st.booleans()):
+        body = body.replace("a", "[ab]", 1)
+    return {"f": f, "pats": ["!!RE:" + body] + draw(st.lists(st.sampled_from(
+        ["!*", "!RE:.*", "*.a", "!*.a"]), max_size=2))}
+
+
+def run_bang_re(case, env):
+    """.bzrignore line `!!RE:<regex with a backslash>`."""
+    from breezy import workingtree
+    from vf.lib import bz
+    f = case["f"]
+    status, level, allowed = _ref_ignored(case["pats"], f)
+    d = env.newdir("t")
+    bz.init_tree(d)
+    with open(os.path.join(d, ".bzrignore"), "wb") as fh:
+        fh.write("".join(p + "\n" for p in case["pats"]).encode("utf-8"))
+    wt = workingtree.WorkingTree.open(d)
+    with wt.lock_read():
+        got = wt.is_ignored(f)
+    if level == 2 and got not in allowed:
+        return violation(
+            "C48/ignore-file-double-exception-regex-backslashes-normalised",
+            {"case": case, "got": got, "allowed": sorted(allowed)},
+            label="ignore-file-!!RE-backslash")
+    check(level == 2, "C48/harness-bang-re-generator", case)
+    return ok("ignore-file-!!RE-backslash")
+
+
+def _ref_ignored(pats, f):
+    singles = {p: R.ref_match(R.split_exception(p)[1], f) for p in pats}
+    level, allowed = _expect_exception(pats, f, singles)
+    return ("ignored" if level in (0, 2) else "not-ignored"), level, allowed
+
+
 def kinds(tier):
     return [
         Kind("globster", run_globster, strategy=gen_case(),
-             examples={"quick": 2400, "thorough": 120000}),
+             examples={"quick": 2400, "thorough": 90000}),
         Kind("exceptions", run_exceptions, strategy=gen_case(exceptions=True),
-             examples={"quick": 1600, "thorough": 70000}),
+             examples={"quick": 1600, "thorough": 50000}),
         Kind("tree-is-ignored", run_tree,
              strategy=gen_case(exceptions=True, names=3),
-             examples={"quick": 320, "thorough": 10000}),
+             examples={"quick": 320, "thorough": 6000}),
         Kind("re-inline-flags", run_flags, strategy=gen_flags(),
              examples={"quick": 64, "thorough": 800}),
         Kind("re-literal-paren", run_paren, strategy=gen_paren(),
              examples={"quick": 160, "thorough": 4000}),
+        Kind("ignore-file-bang-bang-re", run_bang_re, strategy=gen_bang_re(),
+             examples={"quick": 48, "thorough": 600}),
     ]
